@@ -1274,6 +1274,12 @@ def check_mark_key(ctx: Ctx, rule: str) -> None:
 
     def observe2(p: absint.Path) -> tuple:
         k = p.retval.key if p.retval is not None and p.status == 'return' else f'<{p.status}>'
+        # the returned expression may go through a comprehension over a local (opaque to the interpreter): add what the locals it names are bound to
+        for r in walk_no_defs(mk.node):
+            if isinstance(r, ast.Return) and r.value is not None:
+                for nm_ in ast.walk(r.value):
+                    if isinstance(nm_, ast.Name) and nm_.id in p.env and getattr(p.env[nm_.id], 'key', None):
+                        k += ' ' + p.env[nm_.id].key
         marked = 'mark_key(' in k
         plain_too = bool(re.search(r'make_v[12]_key\(key\)', k)) and marked
         return ('marked' if marked and not plain_too else 'mixed' if marked else 'plain', 'make_v2_key' in k, 'make_v1_key' in k)
